@@ -91,6 +91,13 @@ def run(ck):
             ck.skipped.append({"rows": c["rows"], "config": conf, "why": r["skipped"]})
         info = r.get("info") or {}
         early += bool(info.get("early")); lp_src += info.get("src") == "LP"; feas += bool(info.get("feasible"))
+    # specification growth (refinement tier only): cost-sensitive objective ErrorRate(costs); the guarantees are then about the cost-weighted error
+    rnd = ck.rng("c08cost")
+    cjobs = [(j[0], tuple(j[1]) + (rnd.choice([[2, 1], [1, 3]]),), j[2], False) for j in jobs[:: max(1, len(jobs) // (60 if ck.quick else 400))]]
+    for (c, conf, *_), r in zip(cjobs, pmap(E.run_fit, cjobs, chunksize=4)):
+        for sig, text, detail in r["c08"]:
+            ck.note_drift(f"[extension cost-sensitive objective {conf[8]}] {text}")
+    ck.extra["extension_cost_objective_fits"] = len(cjobs)
     traces, acc, diags = validate(ck, recs)
     for i, ok in enumerate(acc):
         if not ok:
